@@ -598,6 +598,38 @@ fn rrdp_exclusion_probe(args: &Args, impl_failures: &mut Vec<Value>) -> Value {
             impl_failures.push(json!({"index": null, "class": {"rrdp_writers_not_exclusive": true, "order": name}, "what": format!("RRDP writers {name}: second writer inside the RRDP directory while the first was held there: {overlap}; both calls succeeded: {}; files on disk match the server's session / serial / content afterwards: {files_ok}", ok1 && ok2)}));
         }
     }
+    // A publication accepted while the scheduler's RRDP update task is running (held inside the RRDP directory) must
+    // still reach the published repository once background work has caught up.
+    for round in 0..2u64 {
+        let _ = sys.pump(100, 2000);
+        let roa = format!("10.1.{}.0/24 => 64998", 200 + round);
+        let staged = sys.routes_update("a", &[&roa], &[]).is_ok() && sys.sync_repo("a").is_ok();
+        let probe = Arc::new(RrdpPause { dir: rrdp_dir.clone(), first: Mutex::new(None), slept: AtomicBool::new(false), first_inside: AtomicBool::new(false), first_done: AtomicBool::new(false), overlap: AtomicBool::new(false) });
+        set_probe(Some(probe.clone()));
+        let h1 = { let (sys, probe) = (sys.clone(), probe.clone()); std::thread::spawn(move || {
+            *probe.first.lock().unwrap() = Some(std::thread::current().id());
+            let mut ran = Vec::new();
+            while let Some((_, what)) = sys.run_one_task() { ran.push(what); if ran.len() > 50 { break } }
+            probe.first_done.store(true, Ordering::SeqCst);
+            ran
+        }) };
+        let t0 = std::time::Instant::now();
+        while !probe.first_inside.load(Ordering::SeqCst) && !probe.first_done.load(Ordering::SeqCst) && t0.elapsed() < Duration::from_secs(20) { std::thread::sleep(Duration::from_millis(5)); }
+        let reached = probe.first_inside.load(Ordering::SeqCst);
+        let roa2 = format!("10.2.{}.0/24 => 64997", 200 + round);
+        let accepted = sys.routes_update("a", &[&roa2], &[]).is_ok() && sys.sync_repo("a").is_ok();
+        let ran = h1.join().unwrap_or_default();
+        set_probe(None);
+        let caught_up = sys.pump(100, 3000).len();
+        let disk_view = rrdp_on_disk(&sys);
+        let content = repo_content(&sys);
+        let files_ok = disk_view.as_ref().map(|d| d.2 && d.3 == content).unwrap_or(false);
+        report.insert(format!("{}:update_task_held_then_publication", 3 + round), json!({"change_staged": staged, "task_reached_the_directory": reached, "tasks_run_by_held_thread": ran,
+            "publication_accepted_meanwhile": accepted, "tasks_run_to_catch_up": caught_up, "snapshot_equals_server_content": files_ok}));
+        if accepted && !files_ok {
+            impl_failures.push(json!({"index": null, "class": {"accepted_publication_not_published": true}, "what": "a publication accepted while the RRDP update task was running is not in the RRDP snapshot after every queued task has run (the server still holds it as staged)"}));
+        }
+    }
     drop(sys);
     let _ = std::fs::remove_dir_all(&dir);
     Value::Object(report)
